@@ -36,6 +36,7 @@ def run_one(pid, m, tier, tests):
                            capture_output=True, text=True)
         out = p.stdout + p.stderr
         res = {"name": m["name"], "exit": p.returncode,
+               "equivalent": m.get("equivalent"),
                "caught": p.returncode == 1 and "VIOLATION property=" in out,
                "wall_s": round(time.time() - t0, 1)}
         msg = [l for l in out.splitlines() if l.startswith("violation:")]
@@ -77,7 +78,10 @@ def main():
         json.dump({"property": pid, "tier": tier, "results": results},
                   open(os.path.join(ROOT, "mutants", "results", pid + ".json"), "w"),
                   indent=1)
-    missed = [r["name"] for r in results if not r.get("caught")]
+    missed = [r["name"] for r in results if not r.get("caught") and not r.get("equivalent")]
+    false_alarm = [r["name"] for r in results if r.get("caught") and r.get("equivalent")]
+    if false_alarm:
+        print("ALARM ON PROPERTY-PRESERVING MUTANT:", false_alarm)
     print("missed:", missed)
 
 
